@@ -181,7 +181,7 @@ func VP_C18_consistency() {
 //vp:property C18
 //vp:bounds each of the five keys (PAA signing, PAA encryption, session, session encryption, user-token encryption) independently of length 0, 1, 31, 32 or 33 with symbolic content; user-token switch on/off; every random draw arbitrary in range; the entropy source working or failing
 //vp:reach replaced kept
-//vp:set budget 30 600
+//vp:set budget 300 900
 func VP_C18_keys() {
 	vpIn = Configuration{}
 	Conf = Configuration{}
